@@ -1,17 +1,182 @@
-//! Window steps (count / event-time / processing-time / session / transaction).
+//! Window steps (count / event-time / processing-time / session / transaction) and the value
+//! encoding shared with the window oracles.
+
+use std::ops::AddAssign;
+use std::time::Duration;
+
+use renoir::operator::window::{
+    CountWindow, EventTimeWindow, ProcessingTimeWindow, SessionWindow, TransactionOp, TransactionWindow,
+};
 
 use crate::dynop::*;
 use crate::elem::*;
-use crate::job::Builder;
+use crate::job::{Builder, KeyedStreamProbe};
 use crate::plan::*;
 
+#[derive(Clone, Default)]
+pub struct SumAcc(pub i64);
+
+impl AddAssign<E> for SumAcc {
+    fn add_assign(&mut self, e: E) {
+        self.0 = self.0.wrapping_add(e.v);
+    }
+}
+
+/// what a window over `group` (in arrival order) must produce under `agg`: (id, v)
+pub fn win_value(agg: WinAgg, key: u16, group: &[(u64, i64)]) -> (u64, i64) {
+    match agg {
+        WinAgg::Chain | WinAgg::Members => {
+            let mut h = 0i64;
+            for (id, _) in group {
+                h = chain(h, *id);
+            }
+            (mix(TAG_WIN, h as u64), group.len() as i64)
+        }
+        WinAgg::Count => (mix(TAG_WIN, key as u64), group.len() as i64),
+        WinAgg::Sum => (
+            mix(TAG_WIN, key as u64),
+            group.iter().fold(0i64, |a, (_, v)| a.wrapping_add(*v)),
+        ),
+        WinAgg::Min => {
+            let m = group.iter().min_by_key(|(id, v)| (*v, *id)).unwrap();
+            (m.0, m.1)
+        }
+        WinAgg::Max => {
+            let m = group.iter().max_by_key(|(id, v)| (*v, *id)).unwrap();
+            (m.0, m.1)
+        }
+        WinAgg::First => group[0],
+        WinAgg::Last => *group.last().unwrap(),
+    }
+}
+
+pub fn tx_op(m: i64, after: Option<i64>, e: &E) -> TransactionOp {
+    // v % m == 0 -> commit (now, or after ts+after); v % m == 1 -> discard; else continue
+    match e.v.rem_euclid(m.max(2)) {
+        0 => match after {
+            Some(a) => TransactionOp::CommitAfter(e.ts + a),
+            None => TransactionOp::Commit,
+        },
+        1 if m >= 4 => TransactionOp::Discard,
+        _ => TransactionOp::Continue,
+    }
+}
+
+macro_rules! agg_window {
+    ($w:expr, $agg:expr) => {{
+        let w = $w;
+        match $agg {
+            WinAgg::Chain => boxed(
+                w.fold((0i64, 0i64), |acc: &mut (i64, i64), e: E| {
+                    acc.0 += 1;
+                    acc.1 = chain(acc.1, e.id);
+                })
+                .unkey()
+                .map(|(k, (c, h))| E {
+                    id: mix(TAG_WIN, h as u64),
+                    key: k,
+                    v: c,
+                    ts: 0,
+                    pad: vec![],
+                }),
+            ),
+            WinAgg::Members => boxed(
+                w.fold((0i64, 0i64, Vec::<u8>::new()), |acc: &mut (i64, i64, Vec<u8>), e: E| {
+                    acc.0 += 1;
+                    acc.1 = chain(acc.1, e.id);
+                    acc.2.extend_from_slice(&e.id.to_le_bytes());
+                })
+                .unkey()
+                .map(|(k, (c, h, ids))| E {
+                    id: mix(TAG_WIN, h as u64),
+                    key: k,
+                    v: c,
+                    ts: 0,
+                    pad: ids,
+                }),
+            ),
+            WinAgg::Count => boxed(w.count().unkey().map(|(k, c)| E {
+                id: mix(TAG_WIN, k as u64),
+                key: k,
+                v: c as i64,
+                ts: 0,
+                pad: vec![],
+            })),
+            WinAgg::Sum => boxed(w.sum::<SumAcc>().unkey().map(|(k, s)| E {
+                id: mix(TAG_WIN, k as u64),
+                key: k,
+                v: s.0,
+                ts: 0,
+                pad: vec![],
+            })),
+            WinAgg::Min => boxed(
+                w.min_by_key(|e: &E| (e.v, e.id))
+                    .unkey()
+                    .map(|(k, e)| E { key: k, ts: 0, pad: vec![], ..e }),
+            ),
+            WinAgg::Max => boxed(
+                w.max_by_key(|e: &E| (e.v, e.id))
+                    .unkey()
+                    .map(|(k, e)| E { key: k, ts: 0, pad: vec![], ..e }),
+            ),
+            WinAgg::First => boxed(w.first().unkey().map(|(k, e)| E { key: k, ts: 0, pad: vec![], ..e })),
+            WinAgg::Last => boxed(
+                w.fold(None, |acc: &mut Option<E>, e: E| *acc = Some(e))
+                    .unkey()
+                    .map(|(k, e)| {
+                        let e = e.unwrap();
+                        E { key: k, ts: 0, pad: vec![], ..e }
+                    }),
+            ),
+        }
+    }};
+}
+
+macro_rules! with_descr {
+    ($k:expr, $kind:expr, $agg:expr) => {{
+        let k = $k;
+        match $kind {
+            WinKind::Count { n, s, exact } => agg_window!(k.window(CountWindow::new(n, s, exact)), $agg),
+            WinKind::EventTumbling { size } => agg_window!(k.window(EventTimeWindow::tumbling(size)), $agg),
+            WinKind::EventSliding { size, slide } => {
+                agg_window!(k.window(EventTimeWindow::sliding(size, slide)), $agg)
+            }
+            WinKind::Proc { size_us, slide_us } => agg_window!(
+                k.window(ProcessingTimeWindow::sliding(
+                    Duration::from_micros(size_us),
+                    Duration::from_micros(slide_us)
+                )),
+                $agg
+            ),
+            WinKind::Session { gap_us } => {
+                agg_window!(k.window(SessionWindow::new(Duration::from_micros(gap_us))), $agg)
+            }
+            WinKind::Tx { m, after } => {
+                agg_window!(k.window(TransactionWindow::new(move |e: &E| tx_op(m, after, e))), $agg)
+            }
+        }
+    }};
+}
+
 pub fn build_window<'a>(
-    _b: &mut Builder<'a>,
-    _s: DS<E>,
-    _kind: WinKind,
-    _agg: WinAgg,
-    _path: &[usize],
-    _all: bool,
+    b: &mut Builder<'a>,
+    s: DS<E>,
+    kind: WinKind,
+    agg: WinAgg,
+    path: &[usize],
+    all: bool,
 ) -> DS<E> {
-    unimplemented!("window steps are built in a later module revision")
+    if all {
+        // window_all = replication(One) + key_by(()) + window: map the unit key to key 0
+        let s = b.probe_pub(s, path, 0, "pre");
+        let k = s.replication(renoir::Replication::One).key_by(|_e: &E| 0u16);
+        let k = boxed_keyed(k);
+        let k = KeyedStreamProbe::probe(b, k, path, "start");
+        with_descr!(k, kind, agg)
+    } else {
+        let s = b.probe_pub(s, path, 0, "pre");
+        let k = boxed_keyed(s.group_by(|e| e.key));
+        let k = KeyedStreamProbe::probe(b, k, path, "start");
+        with_descr!(k, kind, agg)
+    }
 }
